@@ -43,7 +43,7 @@ func (c07) Info(t core.Tier) core.Info {
 	}
 }
 
-func (c07) NumCases(t core.Tier) int { return tierN(t, 9000, 300000) }
+func (c07) NumCases(t core.Tier) int { return tierN(t, 30000, 900000) }
 
 func (c07) WorkerInit(t core.Tier) {
 	runtime.GOMAXPROCS(1)
